@@ -250,9 +250,11 @@ def errorf (l : Lexer) : Res :=
 
 /-- classes of the errors `errorfAt` reports (the model keeps the class of an error in the
     item's `val`, one byte, instead of the message text; `errorf` items have the empty class):
-    1 "unclosed tag", 2 "unexpected eof while scanning string", 3 "unclosed block comment",
+    1 "unclosed tag" and the two malformed tags reported at their `{` ("expected {@param name: ...}",
+      "expected closing tag after {literal.."), 2 "unexpected eof while scanning string", 3 "unclosed block comment",
     4 "unexpected eof when scanning soydoc", 5 "unclosed literal",
-    6 "expected double closing braces in tag" -/
+    6 "expected double closing braces in tag",
+    7 "unexpected beginning to name after '.'" / "… after '?.'" -/
 def clsTag : UInt8 := 1
 def clsString : UInt8 := 2
 def clsComment : UInt8 := 3
@@ -261,6 +263,9 @@ def clsLiteral : UInt8 := 5
 /-- 6 "expected double closing braces in tag": reported at the start of the pending token, the
     single closing brace (/repo 79f0bfc; it was `errorf`, at `pos` behind the look-ahead character) -/
 def clsBraces : UInt8 := 6
+/-- 7 "unexpected beginning to name after '.' / '?.'": reported at the start of the pending token, the
+    `.` or the `?` (/repo 8984077; before, `$a.` and `.٣` were accepted as names) -/
+def clsName : UInt8 := 7
 
 /-- `l.errorfAt(pos, ...)`: an Error item positioned where an unclosed construct begins
     (`l.start`, `docStart` or `l.tagStart`, none of which is ever negative). -/
@@ -720,7 +725,12 @@ def lexSoyDoc (l : Lexer) : Res :=
   | none => none
   | some l1 => lexSoyDocLoop l1 l.start false true
 
-/-- the `for` loop of `lexText`; `lastChar` is the previous value of `r` (0 at the start) -/
+/-- `noChar`: "nothing read yet in this run of text" (/repo 67d6dd1; it was rune 0, so a NUL before
+    `//` made it a comment).  Decoding never yields it; `r = eof` (also -1) ends the loop, so
+    `lastChar` never holds `eof`. -/
+def noChar : Int := -1
+
+/-- the `for` loop of `lexText`; `lastChar` is the previous value of `r` (`noChar` at the start) -/
 def lexTextLoop (l : Lexer) (lastChar : Int) : Res :=
   match h : l.next with
   | none => none
@@ -734,14 +744,14 @@ def lexTextLoop (l : Lexer) (lastChar : Int) : Res :=
           -- '//' only begins a comment if the previous character is whitespace,
           -- or if we are the start of input.
           let lastCharEmitted : Int :=
-            if lastChar = 0 ∧ l2.lastEmit.val ≠ [] then ((l2.lastEmit.val.getLast?.getD 0).toNat : Int)
+            if lastChar = noChar ∧ l2.lastEmit.val ≠ [] then ((l2.lastEmit.val.getLast?.getD 0).toNat : Int)
             else lastChar
-          if lastCharEmitted = 0 ∨ isSpaceEOL lastCharEmitted = true then
+          if lastCharEmitted = noChar ∨ isSpaceEOL lastCharEmitted = true then
             match maybeEmitText l2 3 with
             | none => none
             | some l3 =>
               -- ignore the preceding space, if present.
-              lexLineComment (if lastChar ≠ 0 then { l3 with start := l3.start + 1 } else l3)
+              lexLineComment (if lastChar ≠ noChar then { l3 with start := l3.start + 1 } else l3)
           else lexTextLoop l2.backup r -- `switch r` has no case for '/'
         else if r2 = 42 then
           match maybeEmitText l2 2 with
@@ -786,7 +796,7 @@ decreasing_by
   · exact next_rem_lt h hE
 
 /-- `lexText` scans until an opening command delimiter, "{" -/
-def lexText (l : Lexer) : Res := lexTextLoop l 0
+def lexText (l : Lexer) : Res := lexTextLoop l noChar
 
 /-- `lexLeftDelim` -/
 def lexLeftDelim (l : Lexer) : Res := do
@@ -947,7 +957,10 @@ def lexIdent (l : Lexer) : Res := do
   let (r, l) ← l.next
   if r = 46 then do
     let (d, l) ← l.next
-    lexIdentRest l.backup (if isDigit d then .tDotIndex else .tDotIdent)
+    -- a name begins with a letter or an underscore: "$a." or ".٣" is not one (/repo 8984077)
+    if isDigit d then lexIdentRest l.backup .tDotIndex
+    else if d = 95 ∨ isLetterU d = true then lexIdentRest l.backup .tDotIdent
+    else errorfAt l l.start clsName
   else if r = 36 then do
     -- a variable name begins with a letter or an underscore.
     let (p, l) ← l.peek
@@ -960,7 +973,9 @@ def lexIdent (l : Lexer) : Res := do
     if dot ≠ 46 then errorf l
     else do
       let (d, l) ← l.next
-      lexIdentRest l.backup (if isDigit d then .tQuestionDotIndex else .tQuestionDotIdent)
+      if isDigit d then lexIdentRest l.backup .tQuestionDotIndex
+      else if d = 95 ∨ isLetterU d = true then lexIdentRest l.backup .tQuestionDotIdent
+      else errorfAt l l.start clsName
   else lexIdentRest l .tIdent
 
 /-- the type scan of `lexHeaderParam`:
@@ -993,7 +1008,7 @@ def lexHeaderParam (l : Lexer) : Res := do
     let l ← skipSpace l
     -- Consume the ':'
     let (c, l) ← l.next
-    if c ≠ 58 then errorf l
+    if c ≠ 58 then errorfAt l l.tagStart clsTag   -- reported at the `{` of the tag (/repo ac1c871; it was `errorf`)
     else do
       let l ← l.emit .tColon
       let l ← skipSpace l
@@ -1031,7 +1046,7 @@ def closeLiteral2 : Bytes := [123, 123, 47, 108, 105, 116, 101, 114, 97, 108, 12
 def lexLiteral (l : Lexer) : Res := do
   -- emit the closing of the initial {literal} tag
   let (ch, l) ← scanWhile isSpace (by decide) l
-  if ch ≠ 125 then errorf l
+  if ch ≠ 125 then errorfAt l l.tagStart clsTag   -- reported at the `{` of the tag (/repo ac1c871; it was `errorf`)
   else do
     let (bad, l) ← badDoubleClose l
     if bad then errorfAt l l.start clsBraces
